@@ -18,21 +18,21 @@ pub enum ColTy { Int(i64, i64), Float(f64, f64), TextVals(Vec<&'static str>), Op
 #[derive(Clone, Debug)]
 pub struct ColSpec { pub name: &'static str, pub ty: ColTy, pub unique: bool }
 #[derive(Clone, Debug)]
-pub struct TableSpec { pub name: &'static str, pub cols: Vec<ColSpec>, pub size: i64, pub protected: bool }
+pub struct TableSpec { pub name: &'static str, pub path: &'static str, pub cols: Vec<ColSpec>, pub size: i64, pub protected: bool }
 
 pub fn table_specs() -> Vec<TableSpec> {
     let c = |name, ty| ColSpec { name, ty, unique: false };
     let u = |name, ty| ColSpec { name, ty, unique: true };
     vec![
-        TableSpec { name: "users", protected: true, size: 30, cols: vec![
+        TableSpec { name: "users", path: "users_tab", protected: true, size: 30, cols: vec![
             u("id", ColTy::Int(0, 50)), c("age", ColTy::Int(18, 90)), c("city", ColTy::TextVals(vec!["Paris", "Lyon", "Nice"])),
             c("income", ColTy::Float(0.0, 1000.0)), c("score", ColTy::OptFloat(0.0, 10.0))] },
-        TableSpec { name: "orders", protected: true, size: 60, cols: vec![
+        TableSpec { name: "orders", path: "orders_tab", protected: true, size: 60, cols: vec![
             u("id", ColTy::Int(0, 200)), c("user_id", ColTy::Int(0, 50)), c("amount", ColTy::Float(0.0, 500.0)),
             c("status", ColTy::TextVals(vec!["new", "paid", "sent"]))] },
-        TableSpec { name: "items", protected: true, size: 90, cols: vec![
+        TableSpec { name: "items", path: "items_tab", protected: true, size: 90, cols: vec![
             c("order_id", ColTy::Int(0, 200)), c("price", ColTy::Float(0.0, 100.0)), c("qty", ColTy::OptInt(1, 10))] },
-        TableSpec { name: "cities", protected: false, size: 5, cols: vec![
+        TableSpec { name: "cities", path: "cities_tab", protected: false, size: 5, cols: vec![
             u("city", ColTy::TextVals(vec!["Paris", "Lyon", "Nice", "Lille"])), c("pop", ColTy::Int(0, 1_000_000))] },
     ]
 }
@@ -56,12 +56,13 @@ pub struct World {
 
 pub fn world() -> World {
     let specs = table_specs();
-    let relations: Hierarchy<Arc<Relation>> = specs.iter().map(|t| {
+    // as io::Database::relations does, every table is reachable by its qrlew name and by its SQL path
+    let relations: Hierarchy<Arc<Relation>> = specs.iter().flat_map(|t| {
         let schema: Schema = t.cols.iter().map(|c| {
             if c.unique { (c.name, col_type(&c.ty), Some(Constraint::Unique)) } else { (c.name, col_type(&c.ty), None) }
         }).collect();
-        let rel: Relation = Relation::table().name(t.name).path([t.name]).schema(schema).size(t.size).build();
-        (vec![t.name.to_string()], Arc::new(rel))
+        let rel: Arc<Relation> = Arc::new(Relation::table().name(t.name).path([t.path]).schema(schema).size(t.size).build());
+        vec![(vec![t.name.to_string()], rel.clone()), (vec![t.path.to_string()], rel)]
     }).collect();
     let privacy_unit = PrivacyUnit::from(vec![
         ("users", vec![], "id"),
@@ -69,10 +70,10 @@ pub fn world() -> World {
         ("items", vec![("order_id", "orders", "id"), ("user_id", "users", "id")], "id"),
     ]);
     let synthetic = SyntheticData::new(Hierarchy::from([
-        (vec!["users"], Identifier::from("sd_users")),
-        (vec!["orders"], Identifier::from("sd_orders")),
-        (vec!["items"], Identifier::from("sd_items")),
-        (vec!["cities"], Identifier::from("sd_cities")),
+        (vec!["users_tab"], Identifier::from("sd_users")),
+        (vec!["orders_tab"], Identifier::from("sd_orders")),
+        (vec!["items_tab"], Identifier::from("sd_items")),
+        (vec!["cities_tab"], Identifier::from("sd_cities")),
     ]));
     World { specs, relations, privacy_unit, synthetic }
 }
